@@ -6,6 +6,7 @@
         frames    frames separated by `,`, each `nch` integers/rationals separated by blanks (may be empty)
         partition block lengths (sum = number of frames); `len@fs2` = this block is processed with sample rate fs2
                   (modes T, P only)
+        `K|<mchan>`: see `parseMChan`; answers the spec text of `packSpec`.
    out: every block followed by `;`. T: a block is its samples `num/den` separated by blanks.
         U: a block is its frames separated by `,`, a frame is its samples separated by blanks.
         If a call raises: the blocks produced before it, then `!<PythonException>:<kind>`.
@@ -61,6 +62,49 @@ def parseWhole (s : String) : Option (Spec Rat) :=
   | some (t, []) => some t
   | _ => none
 
+/-- matrix channel: `I <spec>` (a channel of the input allocation with its track spec) or
+`C <rat gain> <n> (<rat|-> <rat|-> <mchan>)*n` (block format gain, then per coefficient: gain, delay, input channel) -/
+def parseMChan : Nat → List String → Option (MChan Rat × List String)
+  | 0, _ => none
+  | fuel + 1, ws =>
+    match ws with
+    | "I" :: rest => do
+      let (t, rest) ← parseSpec (rest.length + 1) rest
+      some (.input t, rest)
+    | "C" :: g :: n :: rest => do
+      let g ← parseRat? g
+      let n ← n.toNat?
+      let rec coeffs (fuel : Nat) (n : Nat) (ws : List String) :
+          Option (List (MChan Rat × Option Rat × Option Rat) × List String) :=
+        match n, ws with
+        | 0, ws => some ([], ws)
+        | n + 1, cg :: cd :: ws => do
+          let cg ← parseOptRat? cg
+          let cd ← parseOptRat? cd
+          let (c, ws) ← parseMChan fuel ws
+          let (cs, ws) ← coeffs fuel n ws
+          some ((c, cg, cd) :: cs, ws)
+        | _, _ => none
+      let (cs, rest) ← coeffs fuel n rest
+      some (.matrixCh cs g, rest)
+    | _ => none
+
+def showOptRat : Option Rat → String
+  | none => "-"
+  | some r => s!"{r.num}/{r.den}"
+
+mutual
+def showSpec : Spec Rat → String
+  | .direct i => s!"D {i}"
+  | .silent => "S"
+  | .mix ts => s!"M {ts.length}" ++ showSpecs ts
+  | .gain t g => s!"G {g.num}/{g.den} " ++ showSpec t
+  | .matrix t g d => s!"X {showOptRat g} {showOptRat d} " ++ showSpec t
+def showSpecs : List (Spec Rat) → String
+  | [] => ""
+  | t :: ts => " " ++ showSpec t ++ showSpecs ts
+end
+
 def parseFrames (nch : Nat) (s : String) : Option (List (List Rat)) :=
   if (words s).isEmpty then some [] else
   (s.splitOn ",").mapM fun f => do
@@ -108,6 +152,12 @@ def traceWith {β γ : Type} (f : List β → Except Err (List γ)) (calls : Lis
 
 def answer (line : String) : String :=
   match line.splitOn "|" with
+  | ["K", mch] =>
+    -- the spec `output_channel_allocation` builds for a matrix channel, in the spec syntax above
+    let ws := words mch
+    match parseMChan (ws.length + 1) ws with
+    | some (c, []) => showSpec (packSpec c)
+    | _ => "bad-op"
   | [mode, hd, specs, frames, parts] =>
     match parseInts? (words hd) with
     | some [fs, nchI] =>
